@@ -59,6 +59,11 @@ CMDS = {
     # string literals of an earlier call are not shared with later calls
     "str_edit": "def tag = 'abc'; tag[0] = 'X'; tag",
     "str_def": "def tag = 'abc'; tag",
+    # the random generator is interpreter state too: a call that fails its
+    # argument check leaves it where it was
+    "seed": "require Random; Random->set_seed(42); 1",
+    "rnd": "require Random; Random->random(1000)",
+    "rnd_fail": "require Random; Random->random('ten')",
     "env2_read": ("E2", "[do limit catch all 'nol' end, "
                         "do a catch all 'noa' end, do w catch all 'now' end]"),
     "env2_fail": ("E2", "def w = 3; error 'boom'"),
@@ -114,6 +119,21 @@ def make_noise(config):
     for c in NOISE:
         ex.execute(n, ("A", c))
     return n
+
+
+_SEQ = []
+
+
+def random_sequence():
+    """the draws that follow set_seed(42) in an interpreter in which nothing
+    else happened"""
+    if not _SEQ:
+        s = core.Session()
+        s.interp.interpret("require Random; Random->set_seed(42)", "seq")
+        for _ in range(8):
+            _SEQ.append(int(s.interp.interpret("Random->random(1000)",
+                                               "seq").value))
+    return _SEQ
 
 
 def new_model():
@@ -248,6 +268,17 @@ class Sessions(e4.Explorer):
             exp = ["value", "'Xbc'"]
         elif name == "str_def":
             exp = ["value", "'abc'"]
+        elif name == "seed":
+            s["rnd"] = 0
+            exp = ["value", "1"]
+        elif name == "rnd":
+            if s.get("rnd") is None:
+                exp = ["value", None]      # unseeded: any number
+            else:
+                exp = ["value", str(random_sequence()[s["rnd"]])]
+                s["rnd"] += 1
+        elif name == "rnd_fail":
+            exp = ERR
         elif name == "env2_read":
             exp = ["value", "[5, " + (str(s["a"]) if s["a"] is not None
                                       else "'noa'") + ", " +
@@ -297,6 +328,7 @@ def explore_subtree(chunk):
     below"""
     agg = core.Agg()
     CONFIG[0] = chunk["config"]
+    random_sequence()
     ex = Sessions(chunk["whos"], chunk["cmds"],
                   {tuple(p) for p in chunk["prefixes"]})
     noise = make_noise(chunk["config"])
@@ -310,6 +342,7 @@ def explore_fresh(chunk):
     """reference explorer: every history replayed on fresh interpreters"""
     agg = core.Agg()
     CONFIG[0] = chunk["config"]
+    random_sequence()
     ex = Sessions(chunk["whos"], chunk["cmds"])
     noise = make_noise(chunk["config"])
     for hist in chunk["histories"]:
@@ -323,6 +356,7 @@ def explore_fresh(chunk):
 def replay(case, verbose=False):
     CONFIG[0] = case.get("config", "home")
     write_modules(CONFIG[0])
+    random_sequence()     # before any session under test exists
     ex = Sessions(["A", "B"], ORDER)
     hist = [tuple(h) for h in case["history"]]
     noise = make_noise(CONFIG[0])
@@ -344,21 +378,28 @@ def replay(case, verbose=False):
 
 def main(tier, seed):
     t0 = time.time()
+    random_sequence()
     agg = core.Agg()
     core_cmds = ["def_a", "inc_a", "read_a", "def_f", "call_f", "partial",
                  "read_bc", "req_good", "bump", "req_broken", "req_cyc",
                  "env_def", "env_read", "req_as", "call_g", "loop_fn", "say",
                  "env2_read", "env2_fail", "class_fail", "def_fail",
-                 "read_pv", "str_edit", "str_def"]
+                 "read_pv", "str_edit", "str_def", "seed", "rnd", "rnd_fail"]
     two = ["def_a", "inc_a", "read_a", "partial", "read_bc", "req_good",
            "bump", "req_missing", "env_def", "env_read", "say", "str_edit"]
     light = ("div0", "syntax", "req_syn", "req_missing", "loop_err",
-             "read_q", "def_fail", "str_def")
+             "read_q", "def_fail", "str_def", "seed", "rnd", "rnd_fail",
+             "class_fail", "read_pv", "str_edit")
+    # small closed groups of commands that only interact with each other
+    groups = [(["seed", "rnd", "rnd_fail", "div0"], 4),
+              (["class_fail", "def_fail", "read_pv", "def_a", "str_edit",
+                "str_def"], 3)]
     if tier == "quick":
         plan1 = [(ORDER, 2), ([c for c in ORDER if c not in light], 3),
                  (["def_a", "read_a", "partial", "call_g",
                                "req_good", "bump", "req_broken",
-                               "req_as", "env2_read", "env2_fail"], 4)]
+                               "req_as", "env2_read", "env2_fail"], 4)] + \
+            groups
         plan2 = [(two, 3)]
     else:
         # (sized from measured cost: about 2 ms per step, both module
@@ -366,7 +407,8 @@ def main(tier, seed):
         plan1 = [(ORDER, 3), ([c for c in ORDER if c not in light], 4),
                  (["def_a", "inc_a", "read_a", "partial", "read_bc",
                    "req_good", "bump", "req_broken", "req_as", "env2_read",
-                   "env2_fail", "call_g"], 5)]
+                   "env2_fail", "call_g"], 5)] + \
+            [(g, d + 1) for g, d in groups]
         plan2 = [(two, 4)]
     configs = ["home"] if tier == "quick" else ["home", "path"]
     for config in configs:
